@@ -45,7 +45,7 @@ Qed.
 Lemma end_patch_heap : forall t s s', end_patch t s = Some s' -> heap s' = heap s.
 Proof.
   intros [[k old]|] s s' H; cbn in H.
-  - destruct old; try (inversion H; reflexivity). destruct (get k s); inversion H; reflexivity.
+  - destruct old; inversion H; reflexivity.
   - inversion H; reflexivity.
 Qed.
 Lemma restore_all_heap : forall ts s, heap (fst (restore_all ts s)) = heap s.
@@ -92,6 +92,9 @@ Proof.
   intros e tk f s s' H. destruct f; cbn in H.
   - destruct (t_old_cython tk) as [[| | |]|]; inversion H; reflexivity.
   - inversion H; reflexivity.
+  - inversion H; reflexivity.
+  - inversion H; subst. unfold uncap, uncapture. destruct (t_capture_started tk); [|reflexivity].
+    destruct (get k_saved_showwarning s) as [[| | |]|]; reflexivity.
   - eapply end_patch_heap; eauto.
   - destruct (mem_n (e_hook e) (meta s)); inversion H; reflexivity.
   - match type of H with (if ?c then _ else _) = _ => destruct c end; inversion H; reflexivity.
@@ -288,3 +291,110 @@ Example same_object_leaks :
   get ("sys", "argv") s3 = get ("sys", "argv") ex_state /\
   content (get ("sys", "argv") ex_state) s3 = 7%N /\ content (get ("sys", "argv") ex_state) ex_state = 0%N.
 Proof. vm_compute. repeat split; reflexivity. Qed.
+
+(* ------------------------------------------------------------------ captureWarnings is undone *)
+
+Lemma run_ops_untouched : forall e os s k, forallb (fun o => negb (touches k o)) os = true ->
+  get k (run_ops e os s) = get k s.
+Proof.
+  intros e os; unfold run_ops. induction os as [|o r IH]; intros s k H; cbn; auto.
+  cbn in H. apply andb_true_iff in H. destruct H as [A B]. rewrite IH by exact B.
+  apply run_op_untouched. destruct (touches k o); [discriminate|reflexivity].
+Qed.
+
+Lemma pre_begin_capture : forall e s k, k <> k_cythonize ->
+  get k (pre_state (pre_begin e s)) = get k (capture_warnings s).
+Proof.
+  intros e s k N. unfold pre_begin. set (s1 := capture_warnings s).
+  set (s2 := if mmem "numpy" (mods s1) then s1 else insert_fakes numpy_fakes s1).
+  assert (G2 : get k s2 = get k s1) by (unfold s2; destruct (mmem "numpy" (mods s1)); reflexivity).
+  cbv zeta. destruct (e_cython e).
+  - destruct (get k_cythonize s2); unfold pre_state.
+    + rewrite get_set_neq by exact N. exact G2.
+    + exact G2.
+  - unfold pre_state. exact G2.
+Qed.
+
+Lemma value_eqb_refl : forall v, value_eqb v v = true.
+Proof. intros v; apply value_eqb_eq; reflexivity. Qed.
+
+(* every script that leaves warnings.showwarning / logging._warnings_showwarning alone, every
+   ending: the capture this analysis switched on is switched off again, a capture that was already
+   on stays on *)
+Theorem capture_warnings_undone : forall root hook cy p s v w,
+  host_function_unaliased k_exit s ->
+  (cy = true -> get k_cythonize s <> None) ->
+  forallb (fun o => negb (touches k_showwarning o)) (fst p) = true ->
+  forallb (fun o => negb (touches k_saved_showwarning o)) (fst p) = true ->
+  get k_showwarning s = Some v -> v <> VNone -> v <> v_logging_showwarning ->
+  get k_saved_showwarning s = Some w ->
+  exists s', analyse root hook cy false p s = Alive s' /\
+    get k_showwarning s' = get k_showwarning s /\ get k_saved_showwarning s' = get k_saved_showwarning s.
+Proof.
+  intros root hook cy p s v w HE CY T1 T2 GV NV NL GW.
+  set (e := mk_env root hook cy false s). set (s0 := with_vcwd root s).
+  destruct (patch_enter outer_patched outer_base s0) as [s1 ot] eqn:PE.
+  destruct (patch_enter_spec _ _ _ _ _ PE outer_nodup) as ([F1 _] & _).
+  assert (G1 : forall k, In k misc_keys -> get k s1 = get k s).
+  { intros k Hk. rewrite F1 by (apply misc_not_outer; exact Hk). reflexivity. }
+  destruct (enter_parse e s1) as [[s2 tk]|s2] eqn:EP.
+  2:{ exfalso. destruct (enter_parse_inr_inv _ _ _ EP) as [C G]. apply (CY C).
+      rewrite <- G. symmetry. apply G1. apply cythonize_in_misc. }
+  destruct HE as [HrE HnE].
+  assert (N2 : novalue (e_real_exit e) s2).
+  { eapply enter_parse_novalue_exit; eauto. eapply nve_patch_enter; eauto. }
+  pose proof (body_not_died e p s2 HrE N2) as ND.
+  destruct (analyse_inl root hook cy p s s1 ot s2 tk PE EP ND) as (s' & A & _ & _ & SW & SV & _).
+  exists s'. split; [exact A|].
+  (* the two attributes in the state the restores start from *)
+  pose proof EP as EP'. rewrite enter_parse_unfold in EP'.
+  pose proof (pre_begin_capture e s1) as PC.
+  destruct (pre_begin e s1) as [[s3 oldc]|] eqn:PBE; [|discriminate]. cbn [pre_state] in PC.
+  destruct (begin_all begin_patched begin_base s3) as [s4 bt] eqn:BA.
+  destruct (patch_enter inner_patched inner_base (with_meta (meta s4 ++ [e_hook e]) s4)) as [s6 it] eqn:PI.
+  inversion EP'; subst s2 tk; clear EP'.
+  destruct (begin_all_spec _ _ _ _ _ BA begin_nodup) as ([F4 _] & _).
+  destruct (patch_enter_spec _ _ _ _ _ PI inner_nodup) as ([F6 _] & _).
+  assert (G6 : forall k, In k misc_keys -> k <> k_cythonize -> get k s6 = get k (capture_warnings s1)).
+  { intros k Hk N. rewrite F6 by (apply misc_not_inner; exact Hk). rewrite get_with_meta.
+    rewrite F4 by (apply misc_not_begin; exact Hk). apply PC; exact N. }
+  set (sp := fst (body e p s6)) in *.
+  assert (GP : forall k, forallb (fun o => negb (touches k o)) (fst p) = true -> get k sp = get k s6).
+  { intros k T. unfold sp, body. cbn [fst]. rewrite run_ops_untouched by exact T.
+    rewrite (proj1 (do_chdir_facts _ _ _ _)). destruct path_insert_in_try; reflexivity. }
+  assert (IS : In k_showwarning misc_keys) by (left; reflexivity).
+  assert (IV : In k_saved_showwarning misc_keys) by (right; left; reflexivity).
+  assert (PS : get k_showwarning sp = get k_showwarning (capture_warnings s1)).
+  { rewrite (GP _ T1). apply G6; [exact IS|discriminate]. }
+  assert (PV : get k_saved_showwarning sp = get k_saved_showwarning (capture_warnings s1)).
+  { rewrite (GP _ T2). apply G6; [exact IV|discriminate]. }
+  assert (GV1 : get k_showwarning s1 = Some v) by (rewrite (G1 _ IS); exact GV).
+  assert (GW1 : get k_saved_showwarning s1 = Some w) by (rewrite (G1 _ IV); exact GW).
+  rewrite SW, SV. change (fst (body (mk_env root hook cy false s) p s6)) with sp.
+  unfold uncap. cbn [t_capture_started]. unfold capture_started.
+  rewrite GV, GW.
+  destruct w as [|n|n|n].
+  - (* not capturing before: this call switched it on *)
+    assert (CS : get k_showwarning (capture_warnings s1) = Some v_logging_showwarning).
+    { unfold capture_warnings. rewrite GW1. apply get_set_eq. }
+    assert (CV : get k_saved_showwarning (capture_warnings s1) = Some v).
+    { unfold capture_warnings. rewrite GW1. cbv iota. rewrite get_set_neq by discriminate. rewrite get_set_eq, GV1. reflexivity. }
+    rewrite CS, GV1. cbn [ov_eqb].
+    assert (NE : value_eqb v_logging_showwarning v = false).
+    { destruct (value_eqb v_logging_showwarning v) eqn:E; auto. apply value_eqb_eq in E. congruence. }
+    rewrite NE. cbn [negb]. unfold uncapture. rewrite PV, CV.
+    destruct v; try contradiction; (split; [rewrite get_set_neq by discriminate; apply get_set_eq|apply get_set_eq]).
+  - assert (CW : capture_warnings s1 = s1) by (unfold capture_warnings; rewrite GW1; reflexivity).
+    rewrite CW, GV1. cbn [ov_eqb]. rewrite value_eqb_refl. cbn [negb]. rewrite PS, PV, CW. split; congruence.
+  - assert (CW : capture_warnings s1 = s1) by (unfold capture_warnings; rewrite GW1; reflexivity).
+    rewrite CW, GV1. cbn [ov_eqb]. rewrite value_eqb_refl. cbn [negb]. rewrite PS, PV, CW. split; congruence.
+  - assert (CW : capture_warnings s1 = s1) by (unfold capture_warnings; rewrite GW1; reflexivity).
+    rewrite CW, GV1. cbn [ov_eqb]. rewrite value_eqb_refl. cbn [negb]. rewrite PS, PV, CW. split; congruence.
+Qed.
+
+Example capture_warnings_undone_applies :
+  host_function_unaliased k_exit ex_state /\
+  forallb (fun o => negb (touches k_showwarning o)) (fst ex_program) = true /\
+  forallb (fun o => negb (touches k_saved_showwarning o)) (fst ex_program) = true /\
+  get k_showwarning ex_state = Some (VOrig 90) /\ get k_saved_showwarning ex_state = Some VNone.
+Proof. split; [apply unaliased_b_sound; vm_compute; reflexivity|]. repeat split; vm_compute; reflexivity. Qed.
